@@ -238,3 +238,63 @@ Proof.
   apply heap_truncate_id. rewrite chunk_at_poke_same by exact Hc1. cbn [cdata].
   rewrite <- Hd1, poke_append, nlen_app. lia.
 Qed.
+
+(* ---- arena.read_n in general: count bytes are allocated, `got` (at most count) are kept, the rest is given back ---- *)
+Lemma arena_read_n_spec h k got count h' k' s a :
+  cache_ok h k -> heap_ok h -> 0 < count -> nlen got <= count ->
+  arena_read_n h k got count = Some (h', k', s, a) ->
+  exists k1, k' = Some k1 /\ cache_ok h' (Some k1) /\ heap_ok h' /\ (length h <= length h')%nat /\
+    (forall s0, sl_ok h s0 -> sl_bytes h' s0 = sl_bytes h s0 /\ sl_ok h' s0) /\
+    sl_bytes h' s = got /\ s = SArena (kchunk k1) (kbump k1 - nlen got) (nlen got) /\ nlen got <= kbump k1 /\
+    (got <> [] -> sl_ok h' s) /\
+    (forall s0, sl_ok h s0 -> sl_chunk s0 = Some (kchunk k1) -> sl_end s0 <= kbump k1 - nlen got) /\
+    a = {| acount := 1; achunk := Some (kchunk k1) |} /\
+    (* remaining() accounting: only the delivered bytes are charged *)
+    ((k = Some {| kchunk := kchunk k1; kbump := kbump k1 - nlen got |} /\ h' = heap_poke h (kchunk k1) (kbump k1 - nlen got) got) \/
+     (kchunk k1 = length h /\ kbump k1 = nlen got /\ count <= kcap h' k1)).
+Proof.
+  intros Hk Hh Hpos Hle E. unfold arena_read_n in E.
+  destruct (count =? 0) eqn:E0; [apply N.eqb_eq in E0; lia|].
+  destruct (count <? nlen got) eqn:E1; [apply N.ltb_lt in E1; lia|].
+  destruct (alloc_cache h k count) as [[h1 k1]|] eqn:EA; [|discriminate].
+  inversion E; subst h' k' s a. clear E.
+  destruct (alloc_cache_spec _ _ _ _ _ Hk Hh EA) as (Hk1 & Hh1 & Hfit & Hcase).
+  destruct Hk1 as (Hc1 & Hd1 & Hb1).
+  assert (Htr : heap_truncate (heap_poke h1 (kchunk k1) (kbump k1) got) (kchunk k1) (kbump k1 + nlen got) = heap_poke h1 (kchunk k1) (kbump k1) got).
+  { apply heap_truncate_id. rewrite chunk_at_poke_same by exact Hc1. cbn [cdata]. rewrite <- Hd1, poke_append, nlen_app. lia. }
+  rewrite Htr.
+  assert (Hframe1 : forall s0, sl_ok h s0 -> sl_bytes h1 s0 = sl_bytes h s0 /\ sl_ok h1 s0).
+  { destruct Hcase as [(-> & _)|(cap & -> & _ & _)]; [auto|]. intros s0 H0. now apply sl_bytes_new_chunk. }
+  assert (Hlen1 : (length h <= length h1)%nat).
+  { destruct Hcase as [(-> & _)|(cap & -> & _ & _)]; [lia|]. rewrite app_length. lia. }
+  exists {| kchunk := kchunk k1; kbump := kbump k1 + nlen got |}. cbn [kchunk kbump].
+  replace (kbump k1 + nlen got - nlen got) with (kbump k1) by lia.
+  split; [reflexivity|]. split; [|split; [|split; [|split; [|split; [|split; [|split; [|split; [|split; [|split]]]]]]]]].
+  - cbn [cache_ok kchunk kbump]. rewrite length_heap_poke. split; [exact Hc1|].
+    unfold kcap. cbn [kchunk]. rewrite ccap_heap_poke. rewrite <- Hd1.
+    rewrite chunk_at_poke_same by exact Hc1. cbn [cdata]. rewrite poke_append, nlen_app.
+    unfold kcap in Hfit, Hb1. lia.
+  - intros c Hc. rewrite length_heap_poke in Hc. rewrite ccap_heap_poke.
+    destruct (Nat.eq_dec c (kchunk k1)) as [->|Ne].
+    + rewrite chunk_at_poke_same by exact Hc1. cbn [cdata]. rewrite <- Hd1, poke_append, nlen_app.
+      unfold kcap in Hfit, Hb1. lia.
+    + rewrite chunk_at_poke_other by exact Ne. apply Hh1. exact Hc.
+  - rewrite length_heap_poke. exact Hlen1.
+  - intros s0 H0. destruct (Hframe1 s0 H0) as (B1 & O1). rewrite <- Hd1.
+    destruct (sl_bytes_append h1 (kchunk k1) got s0 Hc1 O1) as (B2 & O2). split; [congruence|exact O2].
+  - rewrite <- Hd1. apply sl_bytes_fresh. exact Hc1.
+  - reflexivity.
+  - lia.
+  - intros Hne. cbn [sl_ok]. rewrite length_heap_poke. split; [exact Hc1|]. split.
+    + destruct got; [congruence|rewrite nlen_cons; lia].
+    + rewrite chunk_at_poke_same by exact Hc1. cbn [cdata]. rewrite <- Hd1, poke_append, nlen_app. lia.
+  - intros s0 H0 Hch. destruct s0 as [c off len|bs]; [|discriminate]. cbn [sl_chunk] in Hch. inversion Hch; subst c.
+    cbn [sl_end]. destruct Hcase as [(-> & _)|(cap & -> & -> & _)].
+    + cbn [sl_ok] in H0. lia.
+    + cbn [sl_ok kchunk] in H0. lia.
+  - reflexivity.
+  - destruct Hcase as [(-> & ->)|(cap & -> & -> & Hcap)]; [left|right].
+    + split; [destruct k1; reflexivity|reflexivity].
+    + cbn [kchunk kbump]. split; [reflexivity|]. split; [lia|].
+      unfold kcap. cbn [kchunk]. rewrite ccap_heap_poke, chunk_at_new. cbn [ccap]. exact Hcap.
+Qed.
